@@ -3,6 +3,7 @@ import ZCV.Gen.CodeDatatypes
 import ZCV.Gen.CodeSubstitution
 import ZCV.Gen.CodeCmdline
 import ZCV.Gen.CodeUrl
+import ZCV.Gen.CodeCfgparser
 import ZCV.Model.Datatypes
 /-!
 Second line-protocol driver: runs the GENERATED code (`ZCV/Gen/Code*.lean`, the translation of the Python source by
@@ -18,6 +19,7 @@ generated `timedelta` takes as a parameter); no lemma.  Same S-expression conven
   (code "timedelta" "text")                         constructor accepting everything              → (ok (w d h m s)), each none | "float literal"  | (err <Class>)
   (code "addOption" "spec") / (code "addOption-pos" "spec")   without / with pos = ("u", 3, 4)    → (ok (tup (list (s "a") …) (s "val") (tup (s url) (i l) (i c)))) | (err (cfgsyntax url line col specifier))
   (code "bag-basic-key" "text")  (code "bag-normalize-case" "text")   OptionBag.basic_key(text, ("u", 3, 4)), _normalize_case
+  (code "handle-key-value" "text") / (code "handle-directive" "text")   pure prefixes of the parser methods at url "u", line 7 → (ok (tup …)) | (err (cfgsyntax "u" 7 none none))
   (code "urlnormalize" "url")                        ZConfig.url.urlnormalize
   (urlwrap urljoin "base" "rel" (ok "u")|(err Class))   ZConfig.url.urljoin, the answer of urllib's urljoin given   → (ok (s "…")) | (err Class)
   (urlwrap urldefrag "url" (ok "u" "frag")|(err Class))  ZConfig.url.urldefrag, the answer of urllib's urldefrag given → (ok (tup (s "…") (s "…"))) | (err Class)
@@ -103,6 +105,9 @@ def handle (st : DState) : SExp → DState × SExp
       | "addOption-pos" => res vItem (Gen.Code.addOption s (some ("u".toList, 3, 4)))
       | "bag-basic-key" => res vStr (Gen.Code.OptionBag_basic_key Gen.Code.basic_key s ("u".toList, 3, 4))
       | "bag-normalize-case" => res vStr (Gen.Code.OptionBag_normalize_case s)
+      -- cfgparser.py: the pure prefixes of handle_key_value / handle_directive for a parser at url "u", line 7
+      | "handle-key-value" => res (fun t => .list [.atom "tup", vOptStr t.1, vOptStr t.2]) (Gen.Code.handle_key_value_prefix (some "u".toList) 7 () s)
+      | "handle-directive" => res (fun t => .list [.atom "tup", vOptStr t.1, vStr t.2]) (Gen.Code.handle_directive_prefix (some "u".toList) 7 () s)
       | "urlnormalize" => res vStr (Gen.Code.urlnormalize s)
       | "substitute" => res .str (Gen.Code.substitute (assocFn st.env) s (assocFn st.defs))
       | "isname" => res vBool (Gen.Code.isname s)
